@@ -324,3 +324,75 @@ func inject(args []string) error {
 	}
 	return nil
 }
+
+// ---- a locally answered (banned) command pipelined behind forwarded ones must not leave them unflushed
+
+func init() { cli.Register("c01-bannedpipe", bannedPipe) }
+
+type bannedPipeResult struct {
+	Case    string   `json:"case"`
+	Replies []string `json:"replies"`
+	Want    int      `json:"want"`
+	OK      bool     `json:"ok"`
+}
+
+func bannedPipe(args []string) error {
+	fs := flag.NewFlagSet("c01-bannedpipe", flag.ContinueOnError)
+	out := fs.String("out", "", "results (ndjson)")
+	if err := fs.Parse(args); err != nil {
+		return err
+	}
+	predis.VerifSetSlotsRefreshTimers(time.Hour, 20*time.Millisecond)
+	cl, err := simredis.NewCluster(1, 0)
+	if err != nil {
+		return err
+	}
+	defer cl.Close()
+	px, err := sut.StartRedis(sut.RedisOpts{Compression: compressionOn()}, cl.Addrs())
+	if err != nil {
+		return err
+	}
+	defer sut.StopWithin(px.P, 5*time.Second)
+	sut.WaitRefresh(px.Name, 3*time.Second)
+	w, err := cli.NewNDJSONWriter(*out)
+	if err != nil {
+		return err
+	}
+	defer w.Close()
+	cmd := func(a ...string) []byte { return resp.Bytes(resp.Cmd(a...)) }
+	cases := map[string][][]byte{
+		"get+banned":          {cmd("GET", "k1"), cmd("APPEND", "k1", "v")},
+		"get+get+banned":      {cmd("GET", "k1"), cmd("GET", "k2"), cmd("SETRANGE", "k1", "0", "v")},
+		"set+banned+banned":   {cmd("SET", "k1", "v"), cmd("GETBIT", "k1", "1"), cmd("APPEND", "k1", "v")},
+		"many-gets-then-eval": {cmd("GET", "a"), cmd("GET", "b"), cmd("GET", "c"), cmd("GET", "d"), cmd("EVAL", "return 1", "1", "k")},
+	}
+	for name, reqs := range cases {
+		for rep := 0; rep < 20; rep++ {
+			c, err := sut.Dial(px.Addr)
+			if err != nil {
+				return err
+			}
+			c.Do(2*time.Second, "get", "warm")
+			var raw []byte
+			for _, r := range reqs {
+				raw = append(raw, r...)
+			}
+			c.Send(raw)
+			r := bannedPipeResult{Case: name, Want: len(reqs)}
+			for i := 0; i < len(reqs); i++ {
+				v, err := c.Recv(1500 * time.Millisecond)
+				if err != nil {
+					break
+				}
+				r.Replies = append(r.Replies, v.String())
+			}
+			r.OK = len(r.Replies) == r.Want
+			c.Close()
+			w.Write(r)
+			if !r.OK {
+				break
+			}
+		}
+	}
+	return nil
+}
